@@ -444,14 +444,32 @@ def emptyIntegerRange (an : Analyzer α) (domain : List (DomVar α)) : Bool :=
       | none => false
     | _ => false
 
-/-- `enforceable` (fix cce0e38): when the analysis proved the model infeasible — a contradiction froze it, or
-an integer variable is left without an integral point — the inferred ranges are dropped (the declared
-domains are kept by `apply_to_domain`, so nothing would enforce them) and the declared ones are used. -/
+/-- the body of the `for` loop of `enforceable` (fix b9d407a): the stored bounds of an `IntegerRange` variable
+become the tolerantly rounded ones, i.e. the range `apply_to_domain` publishes (`get_mut`: the entry keeps its
+position). -/
+def roundStep (a : Analyzer α) (d : DomVar α) : Analyzer α :=
+  match d.ty with
+  | .int _ _ =>
+    match AList.get? a.variableBounds d.name with
+    | some b =>
+      let rounded : Bounds α := ⟨ceil (sub b.lower a.tolerance), floor (add b.upper a.tolerance)⟩
+      { a with variableBounds := AList.insert a.variableBounds d.name rounded }
+    | none => a
+  | _ => a
+
+def roundIntegerRanges (an : Analyzer α) (domain : List (DomVar α)) : Analyzer α :=
+  domain.foldl roundStep an
+
+/-- `enforceable` (fixes cce0e38, b9d407a): when the analysis proved the model infeasible — a contradiction froze
+it, or an integer variable is left without an integral point — the inferred ranges are dropped (the declared
+domains are kept by `apply_to_domain`, so nothing would enforce them) and the declared ones are used; otherwise
+integer ranges are rounded to what `apply_to_domain` publishes, so that pruning and big-M constants use the
+range that is actually enforced. -/
 def enforceable (an : Analyzer α) (domain : List (DomVar α)) : Analyzer α :=
   if an.detectedInfeasible || an.emptyIntegerRange domain then
     { fromDomain domain an.tolerance with
       detectedInfeasible := an.detectedInfeasible, reachedIterationLimit := an.reachedIterationLimit }
-  else an
+  else an.roundIntegerRanges domain
 
 /-- the per-variable body of `apply_to_domain`. -/
 def applyToVar (an : Analyzer α) (d : DomVar α) : DomVar α :=
